@@ -285,22 +285,32 @@ func (f fault) String() string {
 }
 
 type harness struct {
-	out     *vh.Out
-	rng     *vh.Rng
-	seed    uint64
-	tier    string
-	tmp     string
-	self    string
-	variant int // 1: receiver truncates at chunk 0, 0: appends
-	lines   []string
-	nSc     int
-	msgMu   sync.Mutex
-	msgs    map[string][][2]int // shard id -> (index, len) as seen at the sender
-	seenFlt map[string]int
+	out         *vh.Out
+	rng         *vh.Rng
+	seed        uint64
+	tier        string
+	tmp         string
+	self        string
+	variant     int // 1: receiver truncates at chunk 0, 0: appends
+	lines       []string
+	nSc         int
+	msgMu       sync.Mutex
+	msgs        map[string][][2]int // shard id -> (index, len) as seen at the sender
+	seenFlt     map[string]int
+	samples     []string
+	sampleKinds map[string]int
 }
 
 func (h *harness) emit(kind, op, impl string, nontrivial bool) {
 	h.lines = append(h.lines, op)
+	if nontrivial && h.sampleKinds[kind] < 3 && len(h.samples) < 14 {
+		h.sampleKinds[kind]++
+		line := op + " => " + impl
+		if len(line) > 260 {
+			line = line[:260] + "…"
+		}
+		h.samples = append(h.samples, line)
+	}
 	h.out.Emit(kind, op, impl, nontrivial)
 }
 
@@ -1381,7 +1391,7 @@ func main() {
 		panic(err)
 	}
 	defer os.RemoveAll(tmp)
-	h := &harness{out: vh.NewOut(*outDir), rng: vh.NewRng(*seed), seed: *seed, tier: *tier, tmp: tmp, self: self, seenFlt: map[string]int{}}
+	h := &harness{out: vh.NewOut(*outDir), rng: vh.NewRng(*seed), seed: *seed, tier: *tier, tmp: tmp, self: self, seenFlt: map[string]int{}, sampleKinds: map[string]int{}}
 	extra := map[string]any{}
 	func() {
 		defer func() {
@@ -1396,6 +1406,7 @@ func main() {
 	extra["rule"] = "distinct sync lines carrying a fault, dump lines after a round, hand-made receiver messages and observed chunk sequences"
 	extra["variant"] = map[int]string{1: "receiver truncates at chunk 0 (repaired)", 0: "receiver appends (pinned)"}[h.variant]
 	extra["fault_positions"] = h.seenFlt
+	extra["samples"] = h.samples
 	h.out.Close(extra)
 }
 
